@@ -712,7 +712,7 @@ pub fn enumerate(rec: &Recorded, check: &str, shape: &Shape, seed_tag: &str, nes
                     if !missing.is_empty() {
                         report::count("class.acked-lost", 1);
                         if check == "C01" {
-                            let sig = if shape.dirty { format!("C01:acked-lost:[shape.{}]", shape.name) } else if ckpt_with_uncommitted { "C01:acked-lost:[ckpt-with-uncommitted-writes]".to_string() } else if in_ckpt { "C01:acked-lost:crash-inside-checkpoint".to_string() } else {
+                            let sig = if shape.dirty { format!("C01:acked-lost:[shape.{}]", shape.name) } else if in_ckpt { "C01:acked-lost:crash-inside-checkpoint".to_string() } else if ckpt_with_uncommitted { "C01:acked-lost:[ckpt-with-uncommitted-writes]".to_string() } else {
                                 let older = missing.iter().any(|id| at_last_ckpt.contains_key(id));
                                 format!("C01:acked-lost:{}:{}:[{}]", if older { "checkpointed-row" } else { "since-last-checkpoint" }, phase, feat)
                             };
@@ -724,7 +724,7 @@ pub fn enumerate(rec: &Recorded, check: &str, shape: &Shape, seed_tag: &str, nes
                         if check == "C02" {
                             // who wrote the extra rows: rolled back, open, or partial in-flight
                             let who = extra_origin(rec, &extra, inflight, last_call);
-                            let sig = if shape.dirty && !shape.clean_c02 { format!("C02:unacked-visible:{}:[shape.{}]", who, shape.name) } else if ckpt_with_uncommitted { "C02:unacked-visible:[ckpt-with-uncommitted-writes]".to_string() } else if in_ckpt { "C02:unacked-visible:crash-inside-checkpoint".to_string() } else { format!("C02:unacked-visible:{}:{}:[{}]", who, phase, feat) };
+                            let sig = if shape.dirty && !shape.clean_c02 { format!("C02:unacked-visible:{}:[shape.{}]", who, shape.name) } else if in_ckpt { "C02:unacked-visible:crash-inside-checkpoint".to_string() } else if ckpt_with_uncommitted { "C02:unacked-visible:[ckpt-with-uncommitted-writes]".to_string() } else { format!("C02:unacked-visible:{}:{}:[{}]", who, phase, feat) };
                             report::violation(&sig, &format!("image after mutation {} ({}): rows {:?}… are visible but were never acknowledged ({})", k, phase, &extra[..extra.len().min(5)], who), case());
                         }
                     }
@@ -734,7 +734,7 @@ pub fn enumerate(rec: &Recorded, check: &str, shape: &Shape, seed_tag: &str, nes
                 report::count("class.open-failed", 1);
                 if check == "C08" {
                     let what = if matches!(opened, Opened::OpenFailed(_)) { "open-failed" } else { "unreadable-after-open" };
-                    let sig = if shape.dirty { format!("C08:{}:[shape.{}]", what, shape.name) } else if ckpt_with_uncommitted { format!("C08:{}:{}:[ckpt-with-uncommitted-writes]", what, err_kind(e)) } else if in_ckpt { format!("C08:{}:crash-inside-checkpoint:{}", what, err_kind(e)) } else { format!("C08:{}:{}:{}:[{}]", what, err_kind(e), phase, feat) };
+                    let sig = if shape.dirty { format!("C08:{}:[shape.{}]", what, shape.name) } else if in_ckpt { format!("C08:{}:crash-inside-checkpoint:{}", what, err_kind(e)) } else if ckpt_with_uncommitted { format!("C08:{}:{}:[ckpt-with-uncommitted-writes]", what, err_kind(e)) } else { format!("C08:{}:{}:{}:[{}]", what, err_kind(e), phase, feat) };
                     report::violation(&sig, &format!("image after mutation {} ({}): {}", k, phase, e), case());
                 }
             }
